@@ -214,6 +214,7 @@ class Summary:
         self.ret = set()
         self.outs = {}      # param local -> leaves written through it (&mut)
         self.guards = []    # list of Guard (own + inlined)
+        self.ret_fields = {}  # dotted field chain -> leaves of the returned value's field
 
 
 _SUMMARY_CACHE = {}
@@ -224,14 +225,16 @@ def summary(db, path, binding, depth, opaque, stack):
     key = (id(db), path, tuple(sorted(binding.items())) if (binding and generic) else None, frozenset(opaque))
     if key in _SUMMARY_CACHE:
         return _SUMMARY_CACHE[key]
-    if path in stack or depth > MAX_DEPTH:
+    if path in stack or len(stack) > 40:
         return None
     fn = db.fns[path]
     if not fn.has_mir:
         return None
-    fl = Flow(db, fn, binding, depth, opaque, stack + (path,))
+    # summaries are depth-independent (memoised); only recursion cuts the inlining
+    fl = Flow(db, fn, binding, 0, opaque, stack + (path,))
     s = Summary()
     s.ret = set(fl.ret_ok) if cfgmod.returns_result(fn) else set(fl.leaves(0))
+    s.ret_fields = {k: set(v) for k, v in fl.agg.get(fl.find(0), {}).items()}
     for k in range(1, fn.arg_count + 1):
         if fn.local_ty(k).startswith('&mut'):
             s.outs[k] = set(fl.out.get(k, set()))
@@ -353,31 +356,50 @@ class Flow:
             self.call_ord[bi] = (p, k)
 
     # ---- reading ----
+    def _field_chain(self, proj):
+        """(names, n_consumed): the leading run of real field projections (derefs, downcasts and
+        wrapper fields are transparent; stops at the first index)"""
+        names, i = [], 0
+        while i < len(proj):
+            e = proj[i]
+            if e == '*':
+                i += 1
+                continue
+            if isinstance(e, dict) and 'dc' in e:
+                i += 1
+                continue
+            if isinstance(e, dict) and 'f' in e:
+                if e.get('adt') in WRAPPER_ADTS:
+                    i += 1
+                    continue
+                names.append((e.get('n', str(e['f'])), i))
+                i += 1
+                continue
+            break
+        return names
+
     def place_leaves(self, pl):
         base = pl['l']
         proj = pl['p']
+        r = self.find(base)
         cur = None
         i = 0
-        # skip leading derefs
-        while i < len(proj) and proj[i] == '*':
-            i += 1
-        r = self.find(base)
-        if i < len(proj) and isinstance(proj[i], dict) and 'f' in proj[i] and r in self.agg:
-            name = proj[i].get('n', str(proj[i]['f']))
-            if name in self.agg[r]:
-                cur = set(self.agg[r][name])
-                i += 1
+        chain = self._field_chain(proj)
+        m = self.agg.get(r)
+        if chain and m:
+            for n in range(len(chain), 0, -1):
+                key = '.'.join(c[0] for c in chain[:n])
+                if key in m:
+                    cur = set(m[key])
+                    i = chain[n - 1][1] + 1
+                    break
         if cur is None:
-            i = 0
-            while i < len(proj) and proj[i] == '*':
-                i += 1
-            if i < len(proj) and isinstance(proj[i], dict) and 'f' in proj[i] \
-                    and proj[i].get('adt') not in WRAPPER_ADTS:
-                name = proj[i].get('n', str(proj[i]['f']))
+            if chain:
+                name, pos = chain[0]
                 cur = {self.ext(x, '.' + name) for x in self.L[r]} | set(self.store.get(r, {}).get(name, ()))
-                i += 1
+                i = pos + 1
             else:
-                cur = self.leaves(base)
+                cur = set(self.leaves(base))
                 i = 0
         for e in proj[i:]:
             if e == '*':
@@ -391,6 +413,40 @@ class Flow:
                 cur = {self.ext(x, '[*]') for x in cur}
             # downcast: unchanged
         return cur
+
+    def _agg_of_operand(self, op):
+        """field map of a whole-local (or deref-of-local) operand, if it has one"""
+        pl = op_place(op)
+        if pl is None:
+            return None
+        if any(e != '*' and not (isinstance(e, dict) and ('dc' in e or e.get('adt') in WRAPPER_ADTS)) for e in pl['p']):
+            # a projected place: export the sub-map under that field chain
+            chain = self._field_chain(pl['p'])
+            if len(chain) != sum(1 for e in pl['p'] if isinstance(e, dict) and 'f' in e and e.get('adt') not in WRAPPER_ADTS) \
+                    or any(isinstance(e, dict) and ('i' in e or 'ci' in e or 'sub' in e) for e in pl['p']):
+                return None
+            m = self.agg.get(self.find(pl['l']))
+            if not m:
+                return None
+            pre = '.'.join(c[0] for c in chain) + '.'
+            sub = {k[len(pre):]: v for k, v in m.items() if k.startswith(pre)}
+            return sub or None
+        return self.agg.get(self.find(pl['l']))
+
+    def _merge_agg(self, r, prefix, src):
+        ch = False
+        if not src:
+            return False
+        m = self.agg.setdefault(r, {})
+        for k, v in list(src.items()):
+            key = prefix + k
+            if key.count('.') > 6:
+                continue
+            t = m.setdefault(key, set())
+            n0 = len(t)
+            t |= v
+            ch |= len(t) != n0
+        return ch
 
     def operand_leaves(self, op):
         pl = op_place(op)
@@ -570,6 +626,9 @@ class Flow:
             r = self.find(place['l'])
             names = rv.get('fields') or [str(i) for i in range(len(rv['ops']))]
             if rv.get('agg') == 'adt' and rv.get('adt') in WRAPPER_ADTS:
+                # Ok(x) / Some(x): the payload's field map is the wrapper's
+                if len(rv['ops']) == 1 and not (rv.get('variant') == 'Err'):
+                    ch |= self._merge_agg(r, '', self._agg_of_operand(rv['ops'][0]))
                 return ch
             m = self.agg.setdefault(r, {})
             for n, o in zip(names, rv['ops']):
@@ -577,17 +636,15 @@ class Flow:
                 n0 = len(s)
                 s |= self.operand_leaves(o)
                 ch |= len(s) != n0
-        elif rv['k'] == 'use' and not place['p']:
-            src = op_place(rv['a'])
-            if src is not None and not src['p']:
-                rs, rd = self.find(src['l']), self.find(place['l'])
-                if rs in self.agg and rs != rd:
-                    m = self.agg.setdefault(rd, {})
-                    for n, sset in self.agg[rs].items():
-                        t = m.setdefault(n, set())
-                        n0 = len(t)
-                        t |= sset
-                        ch |= len(t) != n0
+                ch |= self._merge_agg(r, n + '.', self._agg_of_operand(o))
+        elif rv['k'] in ('use', 'ref') and not place['p']:
+            src = rv['a'] if rv['k'] == 'use' else {'cp': rv['place']}
+            sub = self._agg_of_operand(src)
+            if sub:
+                rd = self.find(place['l'])
+                pl = op_place(src)
+                if not (pl is not None and self.find(pl['l']) == rd and not any(isinstance(e, dict) for e in pl['p'])):
+                    ch |= self._merge_agg(rd, '', sub)
         return ch
 
     def _mut_arg_targets(self, t):
@@ -611,7 +668,7 @@ class Flow:
         path = f.get('resolved') if f.get('is_resolved') else f.get('path')
         local_targets = [p for p in targets if p not in self.opaque and self.db.fns[p].has_mir]
         site = None
-        if local_targets and self.depth < MAX_DEPTH:
+        if local_targets:
             res = set()
             inlined = False
             for p in local_targets:
@@ -621,6 +678,9 @@ class Flow:
                 inlined = True
                 callee = self.db.fns[p]
                 res |= self._subst(s.ret, argl, bi)
+                if s.ret_fields and not dest['p']:
+                    sub = {k: self._subst(v, argl, bi) for k, v in s.ret_fields.items()}
+                    ch |= self._merge_agg(self.find(dest['l']), '', sub)
                 for k, leaves in s.outs.items():
                     if k - 1 < len(args):
                         pl = op_place(args[k - 1])
@@ -638,12 +698,14 @@ class Flow:
             elif std and nm in ELEMENT_OF_ARG0 and argl:
                 res = {self.ext(x, '[*]') for x in argl[0]}
                 # a constant index is kept as a separate leaf (which element was selected)
-                if len(argl) > 1:
+                if len(argl) > 1 and len(argl[1]) == 1:
                     for x in argl[1]:
                         if x.startswith('const:') or x.startswith('lit:'):
                             res.add('idx:' + x.split(':', 1)[1])
             elif std and nm in TRANSPARENT_ARG0 and argl:
                 res = set(argl[0])
+                if not dest['p']:
+                    ch |= self._merge_agg(self.find(dest['l']), '', self._agg_of_operand(args[0]))
                 # higher-order adaptors keep their closure's effect
                 for a in argl[1:]:
                     res |= self._closure_effect(a, argl, bi)
@@ -863,6 +925,122 @@ def own_sinks(db, fn, fl):
     return out
 
 
+DRIVERS = {'collect', 'fold', 'for_each', 'extend', 'sum', 'count', 'product', 'any', 'all', 'position',
+           'last', 'max', 'min', 'try_fold', 'try_for_each', 'unzip', 'find', 'nth', 'max_by', 'min_by',
+           'max_by_key', 'min_by_key', 'reduce', 'partition', 'find_map', 'rposition', 'collect_into'}
+ALLOCS = {'with_capacity': 0, 'from_elem': 1, 'resize': 1, 'reserve': 1, 'reserve_exact': 1, 'repeat': 1,
+          'resize_with': 1, 'with_capacity_in': 0}
+NUMERIC_ITER = ('core::ops::range::Range<', 'core::ops::range::RangeInclusive<', 'core::iter::sources::repeat',
+                'core::iter::sources::successors', 'core::iter::sources::from_fn', 'core::ops::range::RangeFrom<',
+                'core::iter::adapters::cycle')
+
+
+def _range_root_leaves(fn, fl, local, defs=None, depth=0):
+    """leaves of the Range (or other counting source) at the root of an adaptor chain"""
+    if defs is None:
+        defs = common.defs_of(fn)
+    ty = fn.local_ty(local)
+    ds = defs.get(local, [])
+    if depth > 10 or len(ds) != 1:
+        return fl.leaves(local)
+    bi, kind, x = ds[0]
+    if kind == 'assign':
+        if x['k'] == 'agg':
+            out = set()
+            for o in x['ops']:
+                out |= fl.operand_leaves(o)
+            return out
+        if x['k'] == 'use':
+            pl = op_place(x['a'])
+            if pl is not None and not pl['p']:
+                return _range_root_leaves(fn, fl, pl['l'], defs, depth + 1)
+        return fl.leaves(local)
+    args = x.get('args', [])
+    if args:
+        pl = op_place(args[0])
+        if pl is not None and not pl['p'] and any(k in fn.local_ty(pl['l']) for k in NUMERIC_ITER):
+            return _range_root_leaves(fn, fl, pl['l'], defs, depth + 1)
+    return fl.leaves(local)
+
+
+def own_iter_sites(db, fn, fl):
+    """pseudo-guards of relation ITER: one per loop / iterator pipeline / size-taking allocation.
+    lhs = the leaves that bound the iteration count (empty for data-driven sites)."""
+    ra = cfgmod.reach_accept(fn)
+    out = []
+
+    def site(kind, leaves, bi, line, root):
+        g = Guard('ITER', leaves, set(), fn.path, bi, line, 'n/a', 'some')
+        g.kind = 'iter:' + kind
+        g.root = root
+        out.append(g)
+    seen_next = set()
+    for latch, header in fn.backedges:
+        body = natural_loop(fn, latch, header)
+        nexts = []
+        for bi in body:
+            t = fn.blocks[bi]['term']
+            if t['k'] == 'call' and t['f'].get('name') in ('next', 'next_back') and t.get('args'):
+                nexts.append((bi, t))
+        line = fn.blocks[header]['term']['line']
+        if nexts:
+            leaves, roots = set(), set()
+            for bi, t in nexts:
+                seen_next.add(bi)
+                pl = op_place(t['args'][0])
+                ty = fn.local_ty(pl['l']) if pl else ''
+                if any(k in ty for k in NUMERIC_ITER):
+                    roots.add('range')
+                    leaves |= fl.operand_leaves(t['args'][0])
+                else:
+                    roots.add('data')
+            site('loop', leaves, header, line, 'range' if 'range' in roots else 'data')
+        else:
+            # condition-driven loop: the operands of every exit test
+            defs = common.defs_of(fn)
+            leaves = set()
+            for bi in body:
+                t = fn.blocks[bi]['term']
+                if t['k'] != 'switch':
+                    continue
+                if all(s2 in body for s2 in fn.succ(bi)):
+                    continue
+                pl = op_place(t['op'])
+                if pl is None:
+                    continue
+                if t['ty'] == 'bool':
+                    o = _bool_origin(fn, fl, pl['l'], defs)
+                    if o and o[0] in ('EMPTY', 'NONEMPTY'):
+                        continue        # runs while a container is non-empty: data-driven
+                    if o:
+                        leaves |= o[1] | o[2]
+                else:
+                    leaves |= fl.operand_leaves(t['op'])
+            site('loop', leaves, header, line, 'cond' if leaves else 'data')
+    for bi, t in fn.calls():
+        nm = t['f'].get('name')
+        args = t.get('args', [])
+        if nm in DRIVERS and args and not db.resolve(t['f']):
+            pl = op_place(args[0])
+            tys = [fn.local_ty(op_place(a)['l']) for a in args if op_place(a) is not None]
+            it_tys = [x for x in tys if 'core::iter::' in x or 'core::slice::iter' in x or 'core::ops::range' in x
+                      or 'alloc::vec::into_iter' in x or 'alloc::vec::drain' in x]
+            if not it_tys:
+                continue
+            if any(k in x for x in it_tys for k in NUMERIC_ITER):
+                leaves = set()
+                for a in args:
+                    p2 = op_place(a)
+                    if p2 is not None and any(k in fn.local_ty(p2['l']) for k in NUMERIC_ITER):
+                        leaves |= _range_root_leaves(fn, fl, p2['l'])
+                site('pipeline', leaves, bi, t['line'], 'range')
+            else:
+                site('pipeline', set(), bi, t['line'], 'data')
+        elif nm in ALLOCS and not db.resolve(t['f']) and len(args) > ALLOCS[nm]:
+            site('alloc', fl.operand_leaves(args[ALLOCS[nm]]), bi, t['line'], 'size')
+    return out
+
+
 def own_guards(db, fn, fl):
     """guards formed by SwitchInt on a comparison result (or Option/Result discriminant, or
     integer match) with at least one live arm that cannot reach an accepting exit"""
@@ -967,7 +1145,8 @@ def effective_guards(db, path, binding=None, depth=0, stack=(), opaque=None, cov
             return []
         fl = Flow(db, fn, binding, 0, opaque)
         base = []
-        for g in own_guards(db, fn, fl) + (own_sinks(db, fn, fl) if sinks else []):
+        extra = own_iter_sites(db, fn, fl) if sinks == 'iter' else (own_sinks(db, fn, fl) if sinks else [])
+        for g in own_guards(db, fn, fl) + extra:
             base.append(g)
         ra = cfgmod.reach_accept(fn)
         complete = True
@@ -993,6 +1172,7 @@ def effective_guards(db, path, binding=None, depth=0, stack=(), opaque=None, cov
                     g2 = Guard(g.rel, fl._subst(g.lhs, argl, bi), fl._subst(g.rhs, argl, bi), g.fn, g.bb,
                                g.line, g.reject, _combine(cov, g.covers))
                     g2.kind = getattr(g, 'kind', None)
+                    g2.root = getattr(g, 'root', None)
                     g2.via = [f'{path}@{t["line"]}'] + g.via
                     base.append(g2)
         if complete or not stack:
